@@ -94,6 +94,23 @@ func catalogue() []mut {
 			return b, srvAddr
 		}})
 	}
+	// two-field mutations: every origin value combined with every transmit/receive
+	// relation (a forger controls all fields at once)
+	txs := map[string]func(b []byte){
+		"tx=0":       func(b []byte) { put64(b, 40, ntp.Time64{}) },
+		"tx=rx=0":    func(b []byte) { put64(b, 40, ntp.Time64{}); put64(b, 32, ntp.Time64{}) },
+		"tx=rx":      func(b []byte) { put64(b, 40, get64(b, 32)) },
+		"tx=max":     func(b []byte) { put64(b, 40, ntp.Time64{Seconds: 0xffffffff, Fraction: 0xffffffff}) },
+		"tx=rx+500s": func(b []byte) { put64(b, 40, add64(get64(b, 32), 500<<32)) },
+		"tx=rx-1":    func(b []byte) { put64(b, 40, add64(get64(b, 32), -1)) },
+	}
+	for _, on := range []string{"origin=req.rx", "origin=0", "origin=req.origin", "origin=prev.origin", "origin=prev.receive", "origin=req.tx"} {
+		of := origins[on]
+		for _, tn := range []string{"tx=0", "tx=rx=0", "tx=rx", "tx=max", "tx=rx+500s", "tx=rx-1"} {
+			tf := txs[tn]
+			ms = append(ms, mut{on + "," + tn, same(func(b []byte, r, p ntp.Packet) { put64(b, 24, of(r, p)); tf(b) })})
+		}
+	}
 	src := func(name string, ap netip.AddrPort) mut {
 		return mut{name, func(g []byte, _, _ ntp.Packet) ([]byte, netip.AddrPort) { return append([]byte{}, g...), ap }}
 	}
@@ -237,6 +254,6 @@ func TestCheck(t *testing.T) {
 			}
 		}
 		r.Extra["catalogue_size"] = len(cat)
-		r.Extra["rule"] = "real IPClient, basic request (no history) and interleaved request (after one undisturbed call): every ordered pair of datagrams from a catalogue of the genuine response and its single-field mutations (all 256 first bytes, stratum, 9 origin values, tx/rx order incl. era wrap, lengths, 4 source addresses) is delivered before the genuine response; success must be justified by the acceptance predicate on the consumed datagram"
+		r.Extra["rule"] = "real IPClient, basic request (no history) and interleaved request (after one undisturbed call): every ordered pair of datagrams from a catalogue of the genuine response and its single-field mutations (all 256 first bytes, stratum, 9 origin values, tx/rx order incl. era wrap, 36 origin x transmit/receive combinations, lengths, 4 source addresses) is delivered before the genuine response; success must be justified by the acceptance predicate on the consumed datagram"
 	})
 }
